@@ -1,4 +1,5 @@
 import Mitx.Model.Schema
+import Mitx.Lemmas.Answers
 import Mitx.Generated.Schemas
 import Mitx.Model.SchemaTables
 /-! # C20 — configuration validation enforces documented option domains and fills defaults
@@ -246,5 +247,44 @@ theorem generated_schemas_wellformed :
 
 /-- the regenerated schemas are the documented ones (option names, required/optional, defaults, domains) -/
 theorem generated_schemas_match_documented : GenSch.fingerprint = Sch.fingerprint := rfl
+
+
+/-! ## answers are normalised to the canonical tuple of dictionaries -/
+
+/-- **Canonical answers.** Whatever form the author used (bare expect value or dictionary, single value or tuple of
+    alternatives), a validated answer has all four keys, a credit in [0,1], and an `ok` that is the one computed from the credit
+    unless the credit is exactly 1 (only a full-credit answer can carry a pinned `ok`). -/
+theorem answers_canonical {ε δ : Type} {vExp : ε → Option δ} {d : Option (List δ)} {r : Av.Raw ε} {c : Av.Canon δ}
+    (h : Av.validateSingle vExp d r = some c) :
+    0 ≤ c.grade ∧ c.grade ≤ 1 ∧ (c.ok ≠ At.gradeToOk c.grade → c.grade = 1) :=
+  Av.validate_canonical h
+
+/-- the bare form and the dictionary form of an answer are equivalent (for graders whose expect values are never themselves
+    dictionaries, so that the "whole dictionary as an expect value" fallback cannot apply) -/
+theorem answers_bare_eq_dict {ε δ : Type} (vExp : ε → Option δ) (x : Av.Exp ε) :
+    Av.validateSingle vExp none (.bare x) = Av.validateSingle vExp none (.dict (some x) none none none false) := by
+  rw [Av.bare_eq_dict]
+  simp only [Av.validateSingle]
+  cases Av.schemaAnswer vExp (some x) none none none false <;> rfl
+
+/-- **Constructing again from the exposed configuration yields the same answers**: re-validating a canonical answer is the
+    identity (given that `validate_expect` accepts its own outputs unchanged) -/
+theorem answers_revalidate {ε δ : Type} {vExp : ε → Option δ} {d : Option (List δ)} {r : Av.Raw ε} {c : Av.Canon δ}
+    (h : Av.validateSingle vExp d r = some c) (v : δ → Option δ) (d' : Option (List δ)) (hexp : ∀ e ∈ c.expect, v e = some e) :
+    Av.validateSingle v d' c.toRaw = some c := by
+  obtain ⟨h0, h1, hok⟩ := Av.validate_canonical h
+  exact Av.revalidate_canonical v d' c hexp h0 h1 hok
+
+/-- validated answers meet the well-formedness hypothesis of the C01 grader-tree theorems -/
+theorem validated_answers_meet_C01_hypothesis {ε : Type} {vExp : ε → Option String} {d : Option (List String)}
+    {answers : List (Av.Raw ε)} {cs : List (Av.Canon String)} (h : Av.schemaAnswers vExp d answers = some cs) :
+    Gr.AnsWF true (cs.map Av.toAnswer) ∧ ((∀ c ∈ cs, c.ok = At.gradeToOk c.grade) → Gr.AnsWF false (cs.map Av.toAnswer)) :=
+  Av.validated_answers_wf h
+
+example : Av.schemaAnswers (fun (e : Option String) => e) none
+    [.bare (.one (some "cat")), .dict (some (.tuple [some "dog", some "wolf"])) (some (1/2)) (some "m") none false]
+    = some [⟨["cat"], 1, "", .yes⟩, ⟨["dog", "wolf"], 1/2, "m", .part⟩] := by decide +kernel
+example : Av.schemaAnswers (fun (e : Option String) => e) none [.dict (some (.one (some "cat"))) (some (3/2)) none none false] = none := by
+  decide +kernel
 
 end C20
